@@ -44,8 +44,8 @@ type Prop struct {
 	// (fatal runtime error, stack overflow, out of memory under ulimit -v, real-time dead loop)
 	// is a violation of this property, reported with the run seed taken from the journal (C04).
 	CrashIsViolation bool
-	Components      map[string]string // component -> "real" | "stub: ..."
-	Assumptions     []string
+	Components       map[string]string // component -> "real" | "stub: ..."
+	Assumptions      []string
 }
 
 // Known finding entry (committed file /verif/KNOWN_FINDINGS.json).
@@ -76,27 +76,27 @@ type Replay struct {
 
 // WorkerResult is what one worker process reports to the driver.
 type WorkerResult struct {
-	Property    string         `json:"property"`
-	Worker      int            `json:"worker"`
-	Seed        uint64         `json:"seed"`
-	Runs        int            `json:"runs"`
-	Steps       int            `json:"steps"`
-	SimNs       int64          `json:"sim_ns"`
-	WallS       float64        `json:"wall_s"`
-	Counters    map[string]int `json:"counters"`
-	Verdicts    map[string]int `json:"verdicts"`
-	Nontrivial  []string       `json:"nontrivial"` // distinct signatures of non-trivial runs
-	DistinctAll int            `json:"distinct_all"`
-	Samples     []any          `json:"samples"`
-	Violation   *Replay        `json:"violation,omitempty"`
-	ReplayPath  string         `json:"replay_path,omitempty"`
-	KnownHits   map[string]int `json:"known_hits"`
-	InfraErrors []string       `json:"infra_errors"`
-	Rule        string         `json:"rule"`
+	Property    string            `json:"property"`
+	Worker      int               `json:"worker"`
+	Seed        uint64            `json:"seed"`
+	Runs        int               `json:"runs"`
+	Steps       int               `json:"steps"`
+	SimNs       int64             `json:"sim_ns"`
+	WallS       float64           `json:"wall_s"`
+	Counters    map[string]int    `json:"counters"`
+	Verdicts    map[string]int    `json:"verdicts"`
+	Nontrivial  []string          `json:"nontrivial"` // distinct signatures of non-trivial runs
+	DistinctAll int               `json:"distinct_all"`
+	Samples     []any             `json:"samples"`
+	Violation   *Replay           `json:"violation,omitempty"`
+	ReplayPath  string            `json:"replay_path,omitempty"`
+	KnownHits   map[string]int    `json:"known_hits"`
+	InfraErrors []string          `json:"infra_errors"`
+	Rule        string            `json:"rule"`
 	Components  map[string]string `json:"components"`
-	Assumptions []string       `json:"assumptions"`
-	SelfTest    *SelfTest      `json:"selftest,omitempty"`
-	FirstSeeds  []uint64       `json:"first_seeds"`
+	Assumptions []string          `json:"assumptions"`
+	SelfTest    *SelfTest         `json:"selftest,omitempty"`
+	FirstSeeds  []uint64          `json:"first_seeds"`
 }
 
 type SelfTest struct {
@@ -581,7 +581,6 @@ func RunDir() (string, func()) {
 	}
 	return d, func() { os.RemoveAll(d) }
 }
-
 
 // supervise runs the exploration in child processes so that a fatal crash of
 // repository code (unrecoverable in Go) is observed, attributed to a run seed
